@@ -173,17 +173,15 @@ bool PoolWakeState::cascadeWakeSeed(int32_t count) {
 }
 
 void PoolWakeState::wakeAll() {
-  // Bump every group's epoch and wake groups with sleepers. The epoch bump
-  // is needed even for groups with sleepMask == 0: a thread could be past
-  // its data.running() check but before enterSleep() (which sets the bit).
-  // Without the bump, such a thread enters waitFor with a stale epoch and
-  // blocks until timeout — causing slow shutdown.
+  // Bump every group's epoch and wake every group. The epoch bump covers a thread that is
+  // past its data.running() check but before enterSleep(): it then enters waitFor with a
+  // stale epoch and returns at once. The wake must be issued even when the group's sleep
+  // mask is empty, because the mask is not an exact record of who is parked:
+  // claimAndWakeOne() clears the claimed thread's bit, but the shared group futex may wake
+  // a different waiter, which then clears its own bit too -- leaving a parked thread with
+  // no bit set. Skipping the wake would leave that thread to its timeout (slow shutdown).
   for (int32_t g = 0; g < numGroups_; ++g) {
-    if (groupStates_[static_cast<size_t>(g)].sleepMask.load(std::memory_order_relaxed)) {
-      waiterFor(g * groupSize_).bumpAndWakeAll();
-    } else {
-      waiterFor(g * groupSize_).bump();
-    }
+    waiterFor(g * groupSize_).bumpAndWakeAll();
   }
 }
 
